@@ -40,12 +40,88 @@ Proof.
   intuition congruence.
 Qed.
 
-(* ------------------------------------------------------------------ frame: what a read depends on *)
-Definition pend_wf (p : pending) : Prop :=
-  (forall n, p_node p = Some n -> r_id n = p_row p) /\
-  Forall (fun e => e_src e = p_row p) (p_del p) /\
-  Forall (fun e => e_src e = p_row p) (p_ins p).
+Lemma is_nil_filter : forall A (f : A -> bool) l, negb (is_nil (filter f l)) = existsb f l.
+Proof.
+  induction l as [|a t IH]; [reflexivity|]. cbn [filter existsb]. destruct (f a); [reflexivity | exact IH].
+Qed.
+Lemma existsb_map' : forall A B (g : A -> B) (f : B -> bool) l, existsb f (map g l) = existsb (fun a => f (g a)) l.
+Proof. induction l as [|a t IH]; [reflexivity|]. cbn [map existsb]. rewrite IH. reflexivity. Qed.
+Lemma existsb_ext' : forall A (f g : A -> bool) l, (forall a, In a l -> f a = g a) -> existsb f l = existsb g l.
+Proof.
+  induction l as [|a t IH]; intros H; [reflexivity|]. cbn [existsb].
+  rewrite (H a (or_introl eq_refl)), IH; [reflexivity | intros; apply H; right; assumption].
+Qed.
+Lemma existsb_flat_map : forall A B (f : B -> bool) (g : A -> list B) l,
+  existsb f (flat_map g l) = existsb (fun a => existsb f (g a)) l.
+Proof. induction l as [|a t IH]; [reflexivity|]. cbn [flat_map existsb]. rewrite existsb_app, IH. reflexivity. Qed.
+Lemma existsb_andb_const : forall A (c : bool) (g : A -> bool) l,
+  existsb (fun a => c && g a) l = c && existsb g l.
+Proof.
+  induction l as [|a t IH]; cbn [existsb]; [destruct c; reflexivity|].
+  rewrite IH. destruct c; reflexivity.
+Qed.
+Lemma flat_map_map' : forall A B C (g : A -> B) (f : B -> list C) l, flat_map f (map g l) = flat_map (fun a => f (g a)) l.
+Proof. induction l as [|a t IH]; [reflexivity|]. cbn [map flat_map]. rewrite IH. reflexivity. Qed.
+Lemma flat_map_ext' : forall A B (f g : A -> list B) l, (forall a, f a = g a) -> flat_map f l = flat_map g l.
+Proof. induction l as [|a t IH]; intros H; [reflexivity|]. cbn [flat_map]. rewrite H, IH by assumption. reflexivity. Qed.
+Lemma filter_filter' : forall A (f g : A -> bool) l, filter f (filter g l) = filter (fun a => g a && f a) l.
+Proof.
+  induction l as [|a t IH]; [reflexivity|]. cbn [filter]. destruct (g a); cbn [filter andb]; rewrite IH; reflexivity.
+Qed.
+Lemma filter_ext_in' : forall A (f g : A -> bool) l, (forall a, In a l -> f a = g a) -> filter f l = filter g l.
+Proof.
+  induction l as [|a t IH]; intros H; [reflexivity|]. cbn [filter].
+  rewrite (H a (or_introl eq_refl)), IH; [reflexivity | intros; apply H; right; assumption].
+Qed.
 
+
+(* ------------------------------------------------------------------ rowids *)
+Definition rowids (d : db) : list N := map r_rowid (rows d).
+Definition ids (d : db) : list N := map r_id (rows d).
+
+Lemma unique_by : forall (f : row -> N) l a b,
+  NoDup (map f l) -> In a l -> In b l -> f a = f b -> a = b.
+Proof.
+  induction l as [|r t IH]; intros a b Hn Ha Hb E; [destruct Ha|].
+  cbn [map] in Hn. inversion Hn as [|? ? Hnot Hn']; subst.
+  destruct Ha as [<-|Ha]; destruct Hb as [<-|Hb]; auto.
+  - exfalso. apply Hnot. rewrite E. apply in_map, Hb.
+  - exfalso. apply Hnot. rewrite <- E. apply in_map, Ha.
+Qed.
+
+Lemma NoDup_map_filter : forall (f : row -> N) g l, NoDup (map f l) -> NoDup (map f (filter g l)).
+Proof.
+  induction l as [|r t IH]; intros H; [constructor|]. cbn [map] in H. inversion H as [|? ? Hnot Hn]; subst.
+  cbn [filter]. destruct (g r); [|apply IH, Hn]. cbn [map]. constructor; [|apply IH, Hn].
+  intros Hin. apply Hnot. apply in_map_iff in Hin. destruct Hin as [a [Ea Ha]]. apply filter_In in Ha.
+  apply in_map_iff. exists a. tauto.
+Qed.
+
+Lemma max_ge : forall (l : list N) b x, In x l -> (x <= fold_right N.max b l)%N.
+Proof.
+  induction l as [|a t IH]; intros b x H; [destruct H|]. cbn [fold_right].
+  destruct H as [<-|H]; [apply N.le_max_l|]. etransitivity; [apply IH, H | apply N.le_max_r].
+Qed.
+Lemma next_rowid_fresh : forall d, ~ In (next_rowid d) (rowids d).
+Proof.
+  intros d H. unfold next_rowid, rowids in *. apply (max_ge _ (db_floor d)) in H. lia.
+Qed.
+
+Lemma rowids_write : forall p d, NoDup (rowids d) -> NoDup (rowids (write p d)).
+Proof.
+  intros p d H. unfold write, rowids in *. destruct (p_kind p) as [| |[|]]; cbn [rows]; try assumption.
+  - destruct (p_node p) as [n|]; [|assumption].
+    rewrite map_map. erewrite map_ext; [exact H|]. intros r. cbn beta.
+    destruct (N.eqb (r_rowid r) (r_rowid n)) eqn:E; [apply N.eqb_eq in E; congruence | reflexivity].
+  - destruct (p_node p) as [n|]; [|assumption].
+    rewrite map_app. cbn [map r_rowid]. apply NoDup_rev in H.
+    rewrite <- (rev_involutive (map r_rowid (rows d) ++ [next_rowid d])). apply NoDup_rev.
+    rewrite rev_app_distr. cbn [rev app]. constructor; [|exact H].
+    rewrite <- in_rev. apply next_rowid_fresh.
+  - apply NoDup_map_filter, H.
+Qed.
+
+(* ------------------------------------------------------------------ frame: what a read depends on *)
 Lemma ref_read_src : forall x date es op,
   Forall (fun e => e_src e = x) es ->
   Forall (fun e => e_src e = x) (fst (fst (ref_read x date es op))) /\
@@ -69,33 +145,26 @@ Proof.
   apply Forall_app. split; [apply H; left; reflexivity | apply IH; intros; apply H; right; assumption].
 Qed.
 
-Lemma read_wf : forall d m p, read d m = Some p -> pend_wf p /\ p_row p = m_row m.
+Lemma edges_of_src : forall x d, Forall (fun e => e_src e = x) (edges_of x d).
+Proof. intros. unfold edges_of. apply Forall_forall. intros e He. apply filter_In in He. apply N.eqb_eq, He. Qed.
+
+Lemma refs_src : forall x date d refs,
+  Forall (fun e => e_src e = x) (flat_map (fun t : list edge * list edge * bool => fst (fst t)) (map (ref_read x date (edges_of x d)) refs)) /\
+  Forall (fun e => e_src e = x) (flat_map (fun t : list edge * list edge * bool => snd (fst t)) (map (ref_read x date (edges_of x d)) refs)).
 Proof.
-  intros d m p H. unfold read in H. destruct (find_row (m_row m) d) as [old|] eqn:F; [|discriminate].
-  inversion H; subst p; clear H. unfold read_view, pend_wf; cbn [p_row p_node p_del p_ins].
-  assert (Hes : Forall (fun e => e_src e = m_row m) (edges_of (m_row m) d)).
-  { unfold edges_of. apply Forall_forall. intros e He. apply filter_In in He. apply N.eqb_eq, He. }
-  split; [|reflexivity]. split; [|split].
-  - intros n Hn. destruct (_ || _); [|discriminate]. inversion Hn; subst n; cbn [r_id].
-    unfold find_row in F. apply find_some in F. apply N.eqb_eq, F.
-  - apply Forall_flat_map. intros t Ht. apply in_map_iff in Ht. destruct Ht as [op [<- _]].
-    apply ref_read_src, Hes.
-  - apply Forall_flat_map. intros t Ht. apply in_map_iff in Ht. destruct Ht as [op [<- _]].
-    apply ref_read_src, Hes.
+  intros. split; apply Forall_flat_map; intros t Ht; apply in_map_iff in Ht; destruct Ht as [op [<- _]];
+    apply ref_read_src, edges_of_src.
 Qed.
 
-Lemma find_replace_other : forall (n : row) x l,
-  r_id n <> x ->
-  find (fun r => N.eqb (r_id r) x) (map (fun r => if N.eqb (r_id r) (r_id n) then n else r) l)
-  = find (fun r => N.eqb (r_id r) x) l.
+(* what read produces *)
+Lemma read_edges_src : forall d m p, read d m = Some p ->
+  p_row p = m_row m /\ Forall (fun e => e_src e = m_row m) (p_del p) /\ Forall (fun e => e_src e = m_row m) (p_ins p).
 Proof.
-  intros n x l Hne. induction l as [|r t IH]; [reflexivity|]. cbn [map find].
-  destruct (N.eqb (r_id r) (r_id n)) eqn:E.
-  - apply N.eqb_eq in E.
-    assert (E1 : N.eqb (r_id n) x = false) by (apply N.eqb_neq; assumption).
-    assert (E2 : N.eqb (r_id r) x = false) by (apply N.eqb_neq; congruence).
-    rewrite E1, E2. apply IH.
-  - destruct (N.eqb (r_id r) x); [reflexivity | apply IH].
+  intros d m p H. unfold read in H. destruct (m_kind m).
+  - destruct (find_row (m_row m) d); [|discriminate]. inversion H; subst p; cbn [read_update p_row p_del p_ins].
+    split; [reflexivity|]. apply refs_src.
+  - inversion H; subst p; cbn [read_create p_row p_del p_ins]. split; [reflexivity|]. apply refs_src.
+  - inversion H; subst p; cbn [p_row p_del p_ins]. repeat split; constructor.
 Qed.
 
 Lemma filter_src_delete : forall x e es,
@@ -137,34 +206,87 @@ Proof.
   inversion H; subst. rewrite IH by assumption. apply filter_src_insert; assumption.
 Qed.
 
-Lemma find_row_write : forall p d x, pend_wf p -> p_row p <> x -> find_row x (write p d) = find_row x d.
+
+Lemma find_map_same : forall (P : row -> bool) (f : row -> row) l,
+  (forall r, In r l -> P (f r) = P r /\ (P r = true -> f r = r)) -> find P (map f l) = find P l.
 Proof.
-  intros p d x [Hn _] Hne. unfold find_row, write; cbn [rows].
-  destruct (p_node p) as [n|] eqn:E; [|reflexivity].
-  apply find_replace_other. rewrite (Hn n eq_refl). assumption.
+  induction l as [|r t IH]; intros H; [reflexivity|]. cbn [map find].
+  destruct (H r (or_introl eq_refl)) as [E1 E2]. rewrite E1. destruct (P r) eqn:Pr.
+  - rewrite E2; reflexivity.
+  - apply IH. intros; apply H; right; assumption.
 Qed.
-Lemma edges_of_write : forall p d x, pend_wf p -> p_row p <> x -> edges_of x (write p d) = edges_of x d.
+Lemma find_snoc_other : forall (P : row -> bool) l a, P a = false -> find P (l ++ [a]) = find P l.
 Proof.
-  intros p d x [_ [Hd Hi]] Hne. unfold edges_of, write; cbn [edges].
-  rewrite filter_src_fold_insert, filter_src_fold_delete; [reflexivity| |].
-  - eapply Forall_impl; [|exact Hd]. cbn beta. intros e He. congruence.
-  - eapply Forall_impl; [|exact Hi]. cbn beta. intros e He. congruence.
+  induction l as [|r t IH]; intros a H; cbn [app find]; [rewrite H; reflexivity|].
+  destruct (P r); [reflexivity | apply IH, H].
+Qed.
+Lemma find_filter_other : forall (P g : row -> bool) l,
+  (forall r, P r = true -> g r = true) -> find P (filter g l) = find P l.
+Proof.
+  induction l as [|r t IH]; intros H; [reflexivity|]. cbn [filter find].
+  destruct (P r) eqn:Pr.
+  - rewrite (H r Pr). cbn [find]. rewrite Pr. reflexivity.
+  - destruct (g r); cbn [find]; [rewrite Pr|]; apply IH, H.
 Qed.
 
-(* a write of a mutation on another row leaves what a read sees unchanged *)
-Lemma read_write_frame : forall p d m, pend_wf p -> p_row p <> m_row m -> read (write p d) m = read d m.
+(* a write of a mutation on another row leaves what a read of row x sees unchanged; the
+   pending mutation must still be what a read would produce now (its rowid is that of its row) *)
+Lemma view_write : forall d mo p x,
+  NoDup (rowids d) -> read d mo = Some p -> m_row mo <> x ->
+  find_row x (write p d) = find_row x d /\ edges_of x (write p d) = edges_of x d.
 Proof.
-  intros p d m Hwf Hne. unfold read. rewrite find_row_write, edges_of_write by assumption. reflexivity.
+  intros d mo p x Hn Hr Hne.
+  pose proof (read_edges_src d mo p Hr) as [Hrow [Hd Hi]].
+  assert (Hedges : filter (fun a => N.eqb (e_src a) x) (write_edges p (edges d)) = filter (fun a => N.eqb (e_src a) x) (edges d)).
+  { unfold write_edges. rewrite filter_src_fold_insert, filter_src_fold_delete; [reflexivity| |].
+    - eapply Forall_impl; [|exact Hd]. cbn beta. intros e He. congruence.
+    - eapply Forall_impl; [|exact Hi]. cbn beta. intros e He. congruence. }
+  unfold read in Hr. destruct (m_kind mo) eqn:K.
+  - (* update *)
+    destruct (find_row (m_row mo) d) as [old|] eqn:F; [|discriminate].
+    inversion Hr; subst p; clear Hr. unfold write, find_row, edges_of; cbn [read_update p_kind p_node rows edges].
+    split; [|exact Hedges].
+    destruct (_ || _); [|reflexivity].
+    unfold find_row in F. pose proof (find_some _ _ F) as [Hin Hid]. apply N.eqb_eq in Hid.
+    apply find_map_same. intros r0 Hr0. cbn [r_rowid].
+    destruct (N.eqb (r_rowid r0) (r_rowid old)) eqn:E.
+    + apply N.eqb_eq in E. assert (r0 = old) by (eapply (unique_by r_rowid); eauto). subst r0.
+      cbn [r_id]. split; [reflexivity|]. intros Hx. apply N.eqb_eq in Hx. congruence.
+    + split; [reflexivity | reflexivity].
+  - (* creation *)
+    inversion Hr; subst p; clear Hr. unfold write, find_row, edges_of; cbn [read_create p_kind p_node rows edges].
+    split; [|exact Hedges]. apply find_snoc_other. cbn [r_id]. apply N.eqb_neq. assumption.
+  - (* deletion *)
+    inversion Hr; subst p; clear Hr. unfold write; cbn [p_kind p_row].
+    destruct (find_row (m_row mo) d); [|split; reflexivity].
+    unfold find_row, edges_of; cbn [rows edges]. split.
+    + apply find_filter_other. intros r0 Hx. apply N.eqb_eq in Hx. apply Bool.negb_true_iff, N.eqb_neq. congruence.
+    + rewrite filter_filter'. apply filter_ext_in'. intros a _.
+      destruct (N.eqb (e_src a) x) eqn:E; [|rewrite Bool.andb_false_r; reflexivity].
+      apply N.eqb_eq in E. rewrite Bool.andb_true_r. apply Bool.negb_true_iff, N.eqb_neq. congruence.
+Qed.
+
+Lemma read_view_eq : forall d d' m,
+  find_row (m_row m) d' = find_row (m_row m) d -> edges_of (m_row m) d' = edges_of (m_row m) d ->
+  read d' m = read d m.
+Proof. intros d d' m Hf He. unfold read. rewrite Hf, He. reflexivity. Qed.
+
+Lemma read_write_frame : forall d mo p m,
+  NoDup (rowids d) -> read d mo = Some p -> m_row mo <> m_row m -> read (write p d) m = read d m.
+Proof.
+  intros d mo p m Hn Hr Hne. destruct (view_write d mo p (m_row m) Hn Hr Hne) as [Hf He].
+  apply read_view_eq; assumption.
 Qed.
 
 (* ------------------------------------------------------------------ T1: schedules without overlapping windows *)
 Record inv (ms : list mutation) (d0 : db) (open : list nat) (s : st) : Prop := {
   inv_db : s_db s = fold_left (apply ms) (s_acked s) d0;
+  inv_rowids : NoDup (rowids (s_db s));
   inv_snap : forall i p, In (i, p) (s_pend s) -> exists m, nth_error ms i = Some m /\ read (s_db s) m = Some p;
   inv_keys : NoDup (map fst (s_pend s));
   inv_rows : forall i p j q, In (i, p) (s_pend s) -> In (j, q) (s_pend s) -> i <> j -> p_row p <> p_row q;
   inv_open : incl (map fst (s_pend s)) open;
-  inv_failed : forall i, In i (s_failed s) -> ~ In i (map fst (s_pend s)) }.
+  inv_dropped : forall i, In i (s_failed s) \/ In i (s_refused s) -> ~ In i (map fst (s_pend s)) }.
 
 Definition open_after (e : ev) (open : list nat) : list nat :=
   match e with R i => i :: open | V _ => open | W i => remove_nat i open end.
@@ -177,33 +299,40 @@ Proof.
 Qed.
 
 Lemma started_false : forall i s, started i s = false ->
-  ~ In i (map fst (s_pend s)) /\ ~ In i (s_acked s) /\ ~ In i (s_failed s).
+  ~ In i (map fst (s_pend s)) /\ ~ In i (s_acked s) /\ ~ In i (s_failed s) /\ ~ In i (s_refused s).
 Proof.
-  intros i s H. unfold started in H. apply Bool.orb_false_iff in H. destruct H as [H H3].
+  intros i s H. unfold started in H. apply Bool.orb_false_iff in H. destruct H as [H H4].
+  apply Bool.orb_false_iff in H. destruct H as [H H3].
   apply Bool.orb_false_iff in H. destruct H as [H1 H2].
-  rewrite memn_false in H1, H2, H3. auto.
+  rewrite memn_false in H1, H2, H3, H4. auto.
 Qed.
+Lemma dropped_true : forall i s, dropped i s = true -> In i (s_failed s) \/ In i (s_refused s).
+Proof. intros i s H. unfold dropped in H. apply Bool.orb_true_iff in H. rewrite !memn_In in H. exact H. Qed.
 
-Lemma step_inv : forall ms d0 open s e t s',
-  inv ms d0 open s -> windows_ok ms open (e :: t) = true -> step ms s e = Some s' ->
+Lemma read_row : forall d m p, read d m = Some p -> p_row p = m_row m.
+Proof. intros d m p H. apply read_edges_src in H. apply H. Qed.
+
+Lemma step_inv : forall rt ms d0 open s e t s',
+  inv ms d0 open s -> windows_ok ms open (e :: t) = true -> step rt ms s e = Some s' ->
   inv ms d0 (open_after e open) s'.
 Proof.
-  intros ms d0 open s e t s' I Hw Hs. destruct I as [Idb Isnap Ikeys Irows Iopen Ifail].
+  intros rt ms d0 open s e t s' I Hw Hs. destruct I as [Idb Irid Isnap Ikeys Irows Iopen Idrop].
   destruct e as [i|i|i]; cbn [step open_after] in *.
   - (* R i *)
     destruct (started i s) eqn:St; [discriminate|].
-    apply started_false in St. destruct St as [Sk [Sa Sf]].
+    apply started_false in St. destruct St as [Sk [Sa [Sf Sr]]].
     destruct (nth_error ms i) as [m|] eqn:Nm; [|discriminate].
     cbn [windows_ok] in Hw. apply Bool.andb_true_iff in Hw. destruct Hw as [Hrow _].
     rewrite forallb_forall in Hrow.
     destruct (read (s_db s) m) as [p|] eqn:Rd; inversion Hs; subst s'; clear Hs.
-    { constructor; cbn [s_db s_pend s_acked s_failed].
+    { constructor; cbn [s_db s_pend s_acked s_failed s_refused].
+      - assumption.
       - assumption.
       - intros j q [H|H]; [inversion H; subst; exists m; auto | auto].
       - cbn [map fst]. constructor; assumption.
       - assert (K : forall j q, In (j, q) (s_pend s) -> p_row p <> p_row q).
         { intros j q Hj. destruct (Isnap j q Hj) as [mj [Nj Rj]].
-          apply read_wf in Rd. apply read_wf in Rj. destruct Rd as [_ Rd]. destruct Rj as [_ Rj].
+          apply read_row in Rd. apply read_row in Rj.
           assert (Jo : In j open) by (apply Iopen; apply in_map_iff; exists (j, q); auto).
           specialize (Hrow j Jo). unfold row_of in Hrow. rewrite Nj, Nm in Hrow. cbn [opt_eqb] in Hrow.
           apply Bool.negb_true_iff, N.eqb_neq in Hrow. congruence. }
@@ -213,69 +342,85 @@ Proof.
         + inversion Hb; subst. intros E. symmetry in E. revert E. eapply K; eauto.
         + eapply Irows; eauto.
       - cbn [map fst]. intros j [<-|Hj]; [left; reflexivity | right; apply Iopen, Hj].
-      - intros j Hj. cbn [map fst]. intros [<-|Hk]; [contradiction | eapply Ifail; eauto]. }
-    { constructor; cbn [s_db s_pend s_acked s_failed]; auto.
+      - intros j Hj. cbn [map fst]. intros [<-|Hk]; [destruct Hj; contradiction | eapply Idrop; eauto]. }
+    { constructor; cbn [s_db s_pend s_acked s_failed s_refused]; auto.
       - intros j Hj. right. apply Iopen, Hj.
-      - intros j Hj. apply in_app_or in Hj. destruct Hj as [Hj|[<-|[]]]; auto. }
+      - intros j [Hj|Hj]; [|apply Idrop; right; assumption].
+        apply in_app_or in Hj. destruct Hj as [Hj|[<-|[]]]; [apply Idrop; left; assumption | assumption]. }
   - (* V i *)
-    destruct (memn i (s_failed s)); [inversion Hs; subst; constructor; auto|].
-    destruct (memn i (map fst (s_pend s)) && negb (memn i (s_fifo s))); [|discriminate].
-    inversion Hs; subst s'; constructor; cbn [s_db s_pend s_acked s_failed]; auto.
+    destruct (dropped i s); [inversion Hs; subst; constructor; auto|].
+    destruct (memn i (s_fifo s)); [discriminate|].
+    destruct (lookup i (s_pend s)) as [p|] eqn:Lk; [|discriminate].
+    destruct (validate rt p); inversion Hs; subst s'; clear Hs.
+    + constructor; cbn [s_db s_pend s_acked s_failed s_refused]; auto.
+    + constructor; cbn [s_db s_pend s_acked s_failed s_refused]; auto.
+      * intros k q Hk. apply In_remove_key in Hk. apply Isnap, Hk.
+      * rewrite keys_remove_key. unfold remove_nat. apply NoDup_filter, Ikeys.
+      * intros a pa b pb Ha Hb. apply In_remove_key in Ha. apply In_remove_key in Hb.
+        eapply Irows; [apply Ha | apply Hb].
+      * rewrite keys_remove_key. intros k Hk. apply In_remove_nat in Hk. apply Iopen, Hk.
+      * intros k Hk. rewrite keys_remove_key. intros Hin. apply In_remove_nat in Hin. destruct Hin as [Hin Hne].
+        destruct Hk as [Hk|Hk]; [eapply Idrop; [left; exact Hk | exact Hin]|].
+        apply in_app_or in Hk. destruct Hk as [Hk|[Hk|[]]]; [eapply Idrop; [right; exact Hk | exact Hin] | congruence].
   - (* W i *)
-    destruct (memn i (s_failed s)) eqn:Mf.
-    + inversion Hs; subst s'. apply memn_In in Mf. constructor; auto.
+    destruct (dropped i s) eqn:Dr.
+    + inversion Hs; subst s'. apply dropped_true in Dr. constructor; auto.
       intros j Hj. apply In_remove_nat. split; [apply Iopen, Hj|].
-      intros ->. eapply Ifail; eauto.
+      intros ->. eapply Idrop; eauto.
     + destruct (s_fifo s) as [|j rest]; [discriminate|].
       destruct (Nat.eqb i j) eqn:Eij; [|discriminate].
       destruct (lookup i (s_pend s)) as [p|] eqn:Lk; [|discriminate].
       inversion Hs; subst s'; clear Hs. apply lookup_In in Lk.
-      destruct (Isnap i p Lk) as [m [Nm Rd]]. pose proof (read_wf _ _ _ Rd) as [Wf Pr].
-      constructor; cbn [s_db s_pend s_acked s_failed].
+      destruct (Isnap i p Lk) as [m [Nm Rd]]. pose proof (read_row _ _ _ Rd) as Pr.
+      constructor; cbn [s_db s_pend s_acked s_failed s_refused].
       * rewrite fold_left_app. cbn [fold_left]. rewrite <- Idb. unfold apply. rewrite Nm, Rd. reflexivity.
+      * apply rowids_write, Irid.
       * intros k q Hk. apply In_remove_key in Hk. destruct Hk as [Hk Hne].
         destruct (Isnap k q Hk) as [mk [Nk Rk]]. exists mk. split; [assumption|].
-        rewrite read_write_frame; [assumption | assumption |].
-        pose proof (read_wf _ _ _ Rk) as [_ Pk]. rewrite <- Pk. eapply Irows; eauto.
+        rewrite (read_write_frame (s_db s) m p mk Irid Rd); [assumption|].
+        pose proof (read_row _ _ _ Rk) as Pk. rewrite <- Pk, <- Pr. eapply Irows; eauto.
       * rewrite keys_remove_key. unfold remove_nat. apply NoDup_filter, Ikeys.
       * intros a pa b pb Ha Hb. apply In_remove_key in Ha. apply In_remove_key in Hb.
         eapply Irows; [apply Ha | apply Hb].
       * rewrite keys_remove_key. intros k Hk. apply In_remove_nat in Hk. apply In_remove_nat.
         split; [apply Iopen, Hk | apply Hk].
       * intros k Hk. rewrite keys_remove_key. intros Hin. apply In_remove_nat in Hin.
-        eapply Ifail; [exact Hk | apply Hin].
+        eapply Idrop; [exact Hk | apply Hin].
 Qed.
 
-Lemma run_inv : forall ms d0 sigma open s s',
-  inv ms d0 open s -> windows_ok ms open sigma = true -> run ms s sigma = Some s' ->
+Lemma run_inv : forall rt ms d0 sigma open s s',
+  inv ms d0 open s -> windows_ok ms open sigma = true -> run rt ms s sigma = Some s' ->
   exists open', inv ms d0 open' s'.
 Proof.
   induction sigma as [|e t IH]; intros open s s' I Hw Hr; cbn [run] in Hr.
   - inversion Hr; subst. exists open; assumption.
-  - destruct (step ms s e) as [s1|] eqn:Hs; [|discriminate].
+  - destruct (step rt ms s e) as [s1|] eqn:Hs; [|discriminate].
     eapply IH; [eapply step_inv; eauto | eapply windows_ok_cons; eauto | exact Hr].
 Qed.
 
-Lemma inv_init : forall ms d0, inv ms d0 [] (init d0).
+Lemma inv_init : forall ms d0, NoDup (rowids d0) -> inv ms d0 [] (init d0).
 Proof.
-  intros. constructor; cbn [init s_db s_pend s_acked s_failed fold_left map].
+  intros. constructor; cbn [init s_db s_pend s_acked s_failed s_refused fold_left map].
   - reflexivity.
+  - assumption.
   - intros i p [].
   - constructor.
   - intros i p j q [].
   - intros i [].
-  - intros i [].
+  - intros i [[]|[]].
 Qed.
 
-(* every schedule (any number of mutations, any length) in which no Read of a mutation on row x
-   falls between the Read and the Write of another mutation on x leaves exactly the state of
-   the serial application of the written mutations in write order *)
-Theorem serial_ok : forall d ms sigma s,
-  run_sched d ms sigma = Some s -> windows_ok ms [] sigma = true ->
+(* every schedule (any number of mutations, creations, deletions; any length; validation may
+   refuse some) in which no Read of a mutation on row x falls between the Read and the Write
+   of another mutation on x leaves exactly the state of the serial application of the WRITTEN
+   mutations in write order: refused and failed ones leave no trace *)
+Theorem serial_ok : forall rt d ms sigma s,
+  NoDup (rowids d) ->
+  run_sched rt d ms sigma = Some s -> windows_ok ms [] sigma = true ->
   s_db s = fold_left (apply ms) (s_acked s) d.
 Proof.
-  intros d ms sigma s Hr Hw. unfold run_sched in Hr.
-  destruct (run_inv ms d sigma [] (init d) s (inv_init ms d) Hw Hr) as [open' I].
+  intros rt d ms sigma s Hn Hr Hw. unfold run_sched in Hr.
+  destruct (run_inv rt ms d sigma [] (init d) s (inv_init ms d Hn) Hw Hr) as [open' I].
   apply I.
 Qed.
 
@@ -323,49 +468,6 @@ Proof.
   unfold join. cbn [flat_map]. fold (join t). cbn [length app]. rewrite app_length. lia.
 Qed.
 
-(* --- row identities never change --- *)
-Definition ids (d : db) : list N := map r_id (rows d).
-Lemma ids_write : forall p d, ids (write p d) = ids d.
-Proof.
-  intros p d. unfold ids, write; cbn [rows]. destruct (p_node p) as [n|]; [|reflexivity].
-  rewrite map_map. apply map_ext. intros r. destruct (N.eqb (r_id r) (r_id n)) eqn:E; [|reflexivity].
-  apply N.eqb_eq in E. congruence.
-Qed.
-Lemma find_row_none : forall x d, find_row x d = None <-> ~ In x (ids d).
-Proof.
-  intros x d. unfold find_row, ids. induction (rows d) as [|r t IH]; cbn [find map In]; [tauto|].
-  destruct (N.eqb (r_id r) x) eqn:E.
-  - apply N.eqb_eq in E. split; [discriminate | intros H; exfalso; apply H; left; assumption].
-  - apply N.eqb_neq in E. rewrite IH. tauto.
-Qed.
-Definition has_row (ms : list mutation) (d : db) (i : nat) : bool :=
-  match nth_error ms i with
-  | Some m => match find_row (m_row m) d with Some _ => true | None => false end
-  | None => false
-  end.
-Lemma read_none_iff : forall d m, read d m = None <-> find_row (m_row m) d = None.
-Proof. intros d m. unfold read. destruct (find_row (m_row m) d); split; intros; congruence. Qed.
-Lemma has_row_ids : forall ms d d' i, ids d = ids d' -> has_row ms d i = has_row ms d' i.
-Proof.
-  intros ms d d' i E. unfold has_row. destruct (nth_error ms i) as [m|]; [|reflexivity].
-  destruct (find_row (m_row m) d) eqn:F; destruct (find_row (m_row m) d') eqn:F'; try reflexivity.
-  - apply find_row_none in F'. rewrite <- E in F'. apply find_row_none in F'. congruence.
-  - apply find_row_none in F. rewrite E in F. apply find_row_none in F. congruence.
-Qed.
-
-(* --- bookkeeping invariant of any run (no assumption on the schedule) --- *)
-Record inv2 (ms : list mutation) (d0 : db) (s : st) : Prop := {
-  i2_ids : ids (s_db s) = ids d0;
-  i2_nk : NoDup (map fst (s_pend s));
-  i2_na : NoDup (s_acked s);
-  i2_nf : NoDup (s_failed s);
-  i2_ka : forall i, In i (map fst (s_pend s)) -> ~ In i (s_acked s);
-  i2_kf : forall i, In i (map fst (s_pend s)) -> ~ In i (s_failed s);
-  i2_af : forall i, In i (s_acked s) -> ~ In i (s_failed s);
-  i2_hk : forall i, In i (map fst (s_pend s)) -> has_row ms d0 i = true;
-  i2_ha : forall i, In i (s_acked s) -> has_row ms d0 i = true;
-  i2_hf : forall i, In i (s_failed s) -> has_row ms d0 i = false /\ nth_error ms i <> None }.
-
 Lemma nodup_snoc : forall (l : list nat) i, NoDup l -> ~ In i l -> NoDup (l ++ [i]).
 Proof.
   induction l as [|a t IH]; intros i Hn Hi; cbn [app].
@@ -383,121 +485,12 @@ Proof.
   - apply IH; auto. intros y Hy. apply Hd. right. assumption.
 Qed.
 
-Lemma inv2_init : forall ms d0, inv2 ms d0 (init d0).
+Lemma zlist_eqb_refl : forall l, zlist_eqb l l = true.
 Proof.
-  intros. constructor; cbn [init s_db s_pend s_acked s_failed map];
-    try reflexivity; try (intros i []); constructor.
+  unfold zlist_eqb. induction l as [|a t IH]; cbn [list_eqb]; [reflexivity|].
+  rewrite Z.eqb_refl, IH. reflexivity.
 Qed.
 
-Lemma step_inv2 : forall ms d0 s e s', inv2 ms d0 s -> step ms s e = Some s' -> inv2 ms d0 s'.
-Proof.
-  intros ms d0 s e s' I Hs.
-  destruct I as [Iids Ink Ina Inf Ika Ikf Iaf Ihk Iha Ihf].
-  destruct e as [i|i|i]; cbn [step] in Hs.
-  - destruct (started i s) eqn:St; [discriminate|].
-    apply started_false in St. destruct St as [Sk [Sa Sf]].
-    destruct (nth_error ms i) as [m|] eqn:Nm; [|discriminate].
-    destruct (read (s_db s) m) as [p|] eqn:Rd; inversion Hs; subst s'; clear Hs.
-    + assert (Hr : has_row ms d0 i = true).
-      { rewrite <- (has_row_ids ms (s_db s) d0 i Iids). unfold has_row. rewrite Nm.
-        destruct (find_row (m_row m) (s_db s)) eqn:F; [reflexivity|].
-        apply read_none_iff in F. congruence. }
-      constructor; cbn [s_db s_pend s_acked s_failed map fst]; auto.
-      * constructor; assumption.
-      * intros j [<-|Hj]; auto.
-      * intros j [<-|Hj]; auto.
-      * intros j [<-|Hj]; auto.
-    + assert (Hr : has_row ms d0 i = false).
-      { rewrite <- (has_row_ids ms (s_db s) d0 i Iids). unfold has_row. rewrite Nm.
-        apply read_none_iff in Rd. rewrite Rd. reflexivity. }
-      constructor; cbn [s_db s_pend s_acked s_failed]; auto.
-      * apply nodup_snoc; assumption.
-      * intros j Hj H. apply in_app_or in H. destruct H as [H|[<-|[]]]; [eapply Ikf; eauto | contradiction].
-      * intros j Hj H. apply in_app_or in H. destruct H as [H|[<-|[]]]; [eapply Iaf; eauto | contradiction].
-      * intros j H. apply in_app_or in H. destruct H as [H|[<-|[]]]; [auto|]. split; [assumption | congruence].
-  - destruct (memn i (s_failed s)); [inversion Hs; subst; constructor; auto|].
-    destruct (memn i (map fst (s_pend s)) && negb (memn i (s_fifo s))); [|discriminate].
-    inversion Hs; subst s'; constructor; cbn [s_db s_pend s_acked s_failed]; auto.
-  - destruct (memn i (s_failed s)); [inversion Hs; subst; constructor; auto|].
-    destruct (s_fifo s) as [|j rest]; [discriminate|].
-    destruct (Nat.eqb i j); [|discriminate].
-    destruct (lookup i (s_pend s)) as [p|] eqn:Lk; [|discriminate].
-    inversion Hs; subst s'; clear Hs. apply lookup_In in Lk.
-    assert (Ki : In i (map fst (s_pend s))) by (apply in_map_iff; exists (i, p); auto).
-    constructor; cbn [s_db s_pend s_acked s_failed]; try rewrite keys_remove_key.
-    + rewrite ids_write. assumption.
-    + unfold remove_nat. apply NoDup_filter. assumption.
-    + apply nodup_snoc; auto.
-    + assumption.
-    + intros k Hk H. apply In_remove_nat in Hk. destruct Hk as [Hk Hne].
-      apply in_app_or in H. destruct H as [H|[H|[]]]; [eapply Ika; eauto | congruence].
-    + intros k Hk. apply In_remove_nat in Hk. apply Ikf, Hk.
-    + intros k H. apply in_app_or in H. destruct H as [H|[<-|[]]]; auto.
-    + intros k Hk. apply In_remove_nat in Hk. apply Ihk, Hk.
-    + intros k H. apply in_app_or in H. destruct H as [H|[<-|[]]]; auto.
-    + assumption.
-Qed.
-
-Lemma run_inv2 : forall ms d0 sigma s s', inv2 ms d0 s -> run ms s sigma = Some s' -> inv2 ms d0 s'.
-Proof.
-  induction sigma as [|e t IH]; intros s s' I Hr; cbn [run] in Hr.
-  - inversion Hr; subst; assumption.
-  - destruct (step ms s e) as [s1|] eqn:Hs; [|discriminate].
-    eapply IH; [eapply step_inv2; eauto | exact Hr].
-Qed.
-
-(* --- a mutation whose Write is in the schedule ends acknowledged or failed --- *)
-Lemma step_mono : forall ms s e s', step ms s e = Some s' ->
-  incl (s_acked s) (s_acked s') /\ incl (s_failed s) (s_failed s').
-Proof.
-  intros ms s e s' Hs. destruct e as [i|i|i]; cbn [step] in Hs.
-  - destruct (started i s); [discriminate|]. destruct (nth_error ms i); [|discriminate].
-    destruct (read (s_db s) m); inversion Hs; subst; cbn [s_acked s_failed]; split;
-      try apply incl_refl. apply incl_appl, incl_refl.
-  - destruct (memn i (s_failed s)); [inversion Hs; subst; split; apply incl_refl|].
-    destruct (_ && _); [|discriminate]. inversion Hs; subst; split; apply incl_refl.
-  - destruct (memn i (s_failed s)); [inversion Hs; subst; split; apply incl_refl|].
-    destruct (s_fifo s) as [|j rest]; [discriminate|]. destruct (Nat.eqb i j); [|discriminate].
-    destruct (lookup i (s_pend s)); [|discriminate]. inversion Hs; subst; cbn [s_acked s_failed].
-    split; [apply incl_appl|]; apply incl_refl.
-Qed.
-Lemma run_mono : forall ms sigma s s', run ms s sigma = Some s' ->
-  incl (s_acked s) (s_acked s') /\ incl (s_failed s) (s_failed s').
-Proof.
-  induction sigma as [|e t IH]; intros s s' Hr; cbn [run] in Hr.
-  - inversion Hr; subst; split; apply incl_refl.
-  - destruct (step ms s e) as [s1|] eqn:Hs; [|discriminate].
-    apply step_mono in Hs. apply IH in Hr. destruct Hs, Hr. split; eapply incl_tran; eauto.
-Qed.
-Lemma step_W : forall ms s i s', step ms s (W i) = Some s' -> In i (s_acked s') \/ In i (s_failed s').
-Proof.
-  intros ms s i s' Hs. cbn [step] in Hs.
-  destruct (memn i (s_failed s)) eqn:Mf; [inversion Hs; subst; right; apply memn_In; assumption|].
-  destruct (s_fifo s) as [|j rest]; [discriminate|]. destruct (Nat.eqb i j); [|discriminate].
-  destruct (lookup i (s_pend s)); [|discriminate]. inversion Hs; subst; cbn [s_acked].
-  left. apply in_or_app. right. left. reflexivity.
-Qed.
-Lemma run_W : forall ms sigma s s' i, run ms s sigma = Some s' -> In (W i) sigma ->
-  In i (s_acked s') \/ In i (s_failed s').
-Proof.
-  induction sigma as [|e t IH]; intros s s' i Hr Hin; [destruct Hin|]. cbn [run] in Hr.
-  destruct (step ms s e) as [s1|] eqn:Hs; [|discriminate].
-  destruct Hin as [->|Hin]; [|eapply IH; eauto].
-  apply step_W in Hs. apply run_mono in Hr. destruct Hr as [Ha Hf].
-  destruct Hs as [H|H]; [left; apply Ha, H | right; apply Hf, H].
-Qed.
-
-Lemma complete_W : forall n sigma i, complete n sigma = true -> (i < n)%nat -> In (W i) sigma.
-Proof.
-  intros n sigma i Hc Hi. unfold complete in Hc. rewrite forallb_forall in Hc.
-  assert (Hs : In i (seq 0 n)) by (apply in_seq; lia).
-  specialize (Hc i Hs). apply Bool.andb_true_iff in Hc. destruct Hc as [_ Hc].
-  apply existsb_exists in Hc. destruct Hc as [e [He Eq]].
-  destruct e as [j|j|j]; cbn [ev_eqb] in Eq; try discriminate.
-  apply Nat.eqb_eq in Eq. subst j. assumption.
-Qed.
-
-(* --- the serial schedule of an order --- *)
 Lemma windows_ok_serial : forall ms pi, windows_ok ms [] (serial_sched pi) = true.
 Proof.
   induction pi as [|i t IH]; [reflexivity|].
@@ -505,126 +498,108 @@ Proof.
   rewrite Nat.eqb_refl. cbn [negb]. exact IH.
 Qed.
 
-Lemma run_app : forall ms l1 l2 s,
-  run ms s (l1 ++ l2) = match run ms s l1 with Some s1 => run ms s1 l2 | None => None end.
+
+(* --- bookkeeping invariant of any run (no assumption on the schedule) --- *)
+Record inv2 (ms : list mutation) (d0 : db) (s : st) : Prop := {
+  i2_nk : NoDup (map fst (s_pend s));
+  i2_na : NoDup (s_acked s);
+  i2_ka : forall i, In i (map fst (s_pend s)) -> ~ In i (s_acked s);
+  i2_kr : forall i, In i (s_refused s) \/ In i (s_failed s) -> ~ In i (map fst (s_pend s)) /\ ~ In i (s_acked s);
+  i2_lt : forall i, In i (map fst (s_pend s)) \/ In i (s_acked s) -> nth_error ms i <> None;
+  (* only what acknowledged mutations read has been written *)
+  i2_trace : exists ps : list (nat * pending), map fst ps = s_acked s /\
+             s_db s = fold_left (fun d p => write p d) (map snd ps) d0 }.
+
+Lemma inv2_init : forall ms d0, inv2 ms d0 (init d0).
 Proof.
-  induction l1 as [|e t IH]; intros l2 s; cbn [app run]; [reflexivity|].
-  destruct (step ms s e); [apply IH | reflexivity].
+  intros. constructor; cbn [init s_db s_pend s_acked s_failed s_refused map].
+  - constructor.
+  - constructor.
+  - intros i [].
+  - intros i [[]|[]].
+  - intros i [[]|[]].
+  - exists []. split; reflexivity.
 Qed.
 
-Lemma serial_one_ok : forall ms d a f i m p,
-  memn i a = false -> memn i f = false -> nth_error ms i = Some m -> read d m = Some p ->
-  run ms {| s_db := d; s_pend := []; s_fifo := []; s_acked := a; s_failed := f |} [R i; V i; W i]
-  = Some {| s_db := write p d; s_pend := []; s_fifo := []; s_acked := a ++ [i]; s_failed := f |}.
+Lemma step_inv2 : forall rt ms d0 s e s', inv2 ms d0 s -> step rt ms s e = Some s' -> inv2 ms d0 s'.
 Proof.
-  intros ms d a f i m p Ha Hf Nm Rd.
-  cbn [run]. unfold step at 1. unfold started. cbn [s_pend s_acked s_failed s_db map memn orb].
-  rewrite Ha, Hf, Nm, Rd. cbn [orb].
-  unfold step at 1. cbn [s_pend s_acked s_failed s_db s_fifo map fst memn].
-  rewrite Hf, Nat.eqb_refl. cbn [orb andb negb app].
-  unfold step at 1. cbn [s_pend s_acked s_failed s_db s_fifo lookup].
-  rewrite Hf, Nat.eqb_refl. unfold remove_key. cbn [filter fst]. rewrite Nat.eqb_refl. cbn [negb].
-  reflexivity.
-Qed.
-Lemma serial_one_fail : forall ms d a f i m,
-  memn i a = false -> memn i f = false -> nth_error ms i = Some m -> read d m = None ->
-  run ms {| s_db := d; s_pend := []; s_fifo := []; s_acked := a; s_failed := f |} [R i; V i; W i]
-  = Some {| s_db := d; s_pend := []; s_fifo := []; s_acked := a; s_failed := f ++ [i] |}.
-Proof.
-  intros ms d a f i m Ha Hf Nm Rd.
-  assert (Hfi : memn i (f ++ [i]) = true) by (apply memn_In, in_or_app; right; left; reflexivity).
-  cbn [run]. unfold step at 1. unfold started. cbn [s_pend s_acked s_failed s_db map memn orb].
-  rewrite Ha, Hf, Nm, Rd. cbn [orb].
-  unfold step at 1. cbn [s_failed]. rewrite Hfi.
-  unfold step at 1. cbn [s_failed]. rewrite Hfi.
-  reflexivity.
-Qed.
-
-Lemma serial_run : forall ms d0 pi d a f,
-  ids d = ids d0 -> NoDup pi ->
-  (forall i, In i pi -> ~ In i a /\ ~ In i f /\ nth_error ms i <> None) ->
-  exists s', run ms {| s_db := d; s_pend := []; s_fifo := []; s_acked := a; s_failed := f |} (serial_sched pi) = Some s' /\
-             s_acked s' = a ++ filter (has_row ms d0) pi.
-Proof.
-  induction pi as [|i t IH]; intros d a f Hids Hnd Hfresh.
-  - eexists. cbn [serial_sched flat_map run filter]. rewrite app_nil_r. split; reflexivity.
-  - inversion Hnd as [|? ? Hni Hnt]; subst.
-    destruct (Hfresh i (or_introl eq_refl)) as [Ha [Hf Hm]].
-    destruct (nth_error ms i) as [m|] eqn:Nm; [|congruence].
-    apply memn_false in Ha. apply memn_false in Hf.
-    change (serial_sched (i :: t)) with ([R i; V i; W i] ++ serial_sched t).
-    rewrite run_app.
-    assert (Hhr : has_row ms d0 i = match read d m with Some _ => true | None => false end).
-    { rewrite <- (has_row_ids ms d d0 i Hids). unfold has_row, read. rewrite Nm.
-      destruct (find_row (m_row m) d); reflexivity. }
-    destruct (read d m) as [p|] eqn:Rd.
-    + rewrite (serial_one_ok ms d a f i m p Ha Hf Nm Rd).
-      destruct (IH (write p d) (a ++ [i]) f) as [s' [Hr Hacc]].
-      * rewrite ids_write. assumption.
-      * assumption.
-      * intros k Hk. destruct (Hfresh k (or_intror Hk)) as [Ka [Kf Km]]. split; [|auto].
-        intros H. apply in_app_or in H. destruct H as [H|[H|[]]]; [contradiction | subst; contradiction].
-      * exists s'. split; [exact Hr|]. rewrite Hacc. cbn [filter]. rewrite Hhr.
-        rewrite <- app_assoc. reflexivity.
-    + rewrite (serial_one_fail ms d a f i m Ha Hf Nm Rd).
-      destruct (IH d a (f ++ [i])) as [s' [Hr Hacc]]; auto.
-      * intros k Hk. destruct (Hfresh k (or_intror Hk)) as [Ka [Kf Km]]. split; [auto|]. split; [|auto].
-        intros H. apply in_app_or in H. destruct H as [H|[H|[]]]; [contradiction | subst; contradiction].
-      * exists s'. split; [exact Hr|]. rewrite Hacc. cbn [filter]. rewrite Hhr. reflexivity.
+  intros rt ms d0 s e s' I Hs.
+  destruct I as [Ink Ina Ika Ikr Ilt Itr].
+  destruct e as [i|i|i]; cbn [step] in Hs.
+  - destruct (started i s) eqn:St; [discriminate|].
+    apply started_false in St. destruct St as [Sk [Sa [Sf Sr]]].
+    destruct (nth_error ms i) as [m|] eqn:Nm; [|discriminate].
+    destruct (read (s_db s) m) as [p|] eqn:Rd; inversion Hs; subst s'; clear Hs.
+    + constructor; cbn [s_db s_pend s_acked s_failed s_refused map fst]; auto.
+      * constructor; assumption.
+      * intros j [<-|Hj]; auto.
+      * intros j Hj. destruct (Ikr j Hj) as [K1 K2]. split; [|assumption].
+        intros [<-|Hk]; [destruct Hj; contradiction | contradiction].
+      * intros j [[<-|Hj]|Hj]; [congruence | apply Ilt; auto | apply Ilt; auto].
+    + constructor; cbn [s_db s_pend s_acked s_failed s_refused]; auto.
+      intros j [Hj|Hj]; [apply Ikr; left; assumption|].
+      apply in_app_or in Hj. destruct Hj as [Hj|[<-|[]]]; [apply Ikr; right; assumption | split; assumption].
+  - destruct (dropped i s); [inversion Hs; subst; constructor; auto|].
+    destruct (memn i (s_fifo s)); [discriminate|].
+    destruct (lookup i (s_pend s)) as [p|] eqn:Lk; [|discriminate]. apply lookup_In in Lk.
+    assert (Ki : In i (map fst (s_pend s))) by (apply in_map_iff; exists (i, p); auto).
+    destruct (validate rt p); inversion Hs; subst s'; clear Hs.
+    + constructor; cbn [s_db s_pend s_acked s_failed s_refused]; auto.
+    + constructor; cbn [s_db s_pend s_acked s_failed s_refused]; try rewrite keys_remove_key; auto.
+      * unfold remove_nat. apply NoDup_filter. assumption.
+      * intros k Hk. apply In_remove_nat in Hk. apply Ika, Hk.
+      * intros k Hk. try rewrite keys_remove_key.
+        assert (Hc : (In k (s_refused s) \/ In k (s_failed s)) \/ k = i).
+        { destruct Hk as [Hk|Hk]; [|left; right; assumption].
+          apply in_app_or in Hk. destruct Hk as [Hk|[Hk|[]]]; [left; left; assumption | right; auto]. }
+        destruct Hc as [Hc| ->].
+        -- destruct (Ikr k Hc) as [K1 K2]. split; [|assumption]. intros H. apply In_remove_nat in H. apply K1, H.
+        -- split; [intros H; apply In_remove_nat in H; destruct H; congruence | apply Ika, Ki].
+      * intros k [Hk|Hk]; [try rewrite keys_remove_key in Hk; apply In_remove_nat in Hk; apply Ilt; left; apply Hk | apply Ilt; auto].
+  - destruct (dropped i s); [inversion Hs; subst; constructor; auto|].
+    destruct (s_fifo s) as [|j rest]; [discriminate|].
+    destruct (Nat.eqb i j); [|discriminate].
+    destruct (lookup i (s_pend s)) as [p|] eqn:Lk; [|discriminate].
+    inversion Hs; subst s'; clear Hs. apply lookup_In in Lk.
+    assert (Ki : In i (map fst (s_pend s))) by (apply in_map_iff; exists (i, p); auto).
+    constructor; cbn [s_db s_pend s_acked s_failed s_refused]; try rewrite keys_remove_key.
+    + unfold remove_nat. apply NoDup_filter. assumption.
+    + apply nodup_snoc; auto.
+    + intros k Hk H. apply In_remove_nat in Hk. destruct Hk as [Hk Hne].
+      apply in_app_or in H. destruct H as [H|[H|[]]]; [eapply Ika; eauto | congruence].
+    + intros k Hk. try rewrite keys_remove_key. destruct (Ikr k Hk) as [K1 K2]. split.
+      * intros H. apply In_remove_nat in H. apply K1, H.
+      * intros H. apply in_app_or in H. destruct H as [H|[<-|[]]]; [contradiction | contradiction].
+    + intros k [Hk|Hk].
+      * try rewrite keys_remove_key in Hk. apply In_remove_nat in Hk. apply Ilt. left. apply Hk.
+      * apply in_app_or in Hk. destruct Hk as [Hk|[<-|[]]]; apply Ilt; auto.
+    + destruct Itr as [ps [Hps Hdb]]. exists (ps ++ [(i, p)]). split.
+      * rewrite map_app, Hps. reflexivity.
+      * rewrite map_app, fold_left_app, <- Hdb. reflexivity.
 Qed.
 
-Lemma filter_all : forall A (f : A -> bool) l, (forall x, In x l -> f x = true) -> filter f l = l.
+Lemma run_inv2 : forall rt ms d0 sigma s s', inv2 ms d0 s -> run rt ms s sigma = Some s' -> inv2 ms d0 s'.
 Proof.
-  induction l as [|a t IH]; intros H; cbn [filter]; [reflexivity|].
-  rewrite (H a (or_introl eq_refl)), IH; [reflexivity | intros; apply H; right; assumption].
-Qed.
-Lemma filter_none : forall A (f : A -> bool) l, (forall x, In x l -> f x = false) -> filter f l = [].
-Proof.
-  induction l as [|a t IH]; intros H; cbn [filter]; [reflexivity|].
-  rewrite (H a (or_introl eq_refl)). apply IH. intros; apply H; right; assumption.
+  induction sigma as [|e t IH]; intros s s' I Hr; cbn [run] in Hr.
+  - inversion Hr; subst; assumption.
+  - destruct (step rt ms s e) as [s1|] eqn:Hs; [|discriminate].
+    eapply IH; [eapply step_inv2; eauto | exact Hr].
 Qed.
 
-Lemma zlist_eqb_refl : forall l, zlist_eqb l l = true.
+(* a mutation that the validation refused, or whose read failed, is never written: in ANY
+   schedule the database is the result of the writes of acknowledged mutations only *)
+Theorem only_acked_written : forall rt d ms sigma s,
+  run_sched rt d ms sigma = Some s ->
+  (forall i, In i (s_refused s) \/ In i (s_failed s) -> ~ In i (s_acked s)) /\
+  exists ps : list (nat * pending), map fst ps = s_acked s /\
+    s_db s = fold_left (fun d p => write p d) (map snd ps) d.
 Proof.
-  unfold zlist_eqb. induction l as [|a t IH]; cbn [list_eqb]; [reflexivity|].
-  rewrite Z.eqb_refl, IH. reflexivity.
+  intros rt d ms sigma s Hr. unfold run_sched in Hr.
+  pose proof (run_inv2 rt ms d sigma (init d) s (inv2_init ms d) Hr) as I.
+  destruct I as [_ _ _ Ikr _ Itr]. split; [intros i Hi; apply Ikr, Hi | exact Itr].
 Qed.
 
 (* ------------------------------------------------------------------ the model's serial step refines the abstract semantics *)
-Lemma is_nil_filter : forall A (f : A -> bool) l, negb (is_nil (filter f l)) = existsb f l.
-Proof.
-  induction l as [|a t IH]; [reflexivity|]. cbn [filter existsb]. destruct (f a); [reflexivity | exact IH].
-Qed.
-Lemma existsb_map' : forall A B (g : A -> B) (f : B -> bool) l, existsb f (map g l) = existsb (fun a => f (g a)) l.
-Proof. induction l as [|a t IH]; [reflexivity|]. cbn [map existsb]. rewrite IH. reflexivity. Qed.
-Lemma existsb_ext' : forall A (f g : A -> bool) l, (forall a, In a l -> f a = g a) -> existsb f l = existsb g l.
-Proof.
-  induction l as [|a t IH]; intros H; [reflexivity|]. cbn [existsb].
-  rewrite (H a (or_introl eq_refl)), IH; [reflexivity | intros; apply H; right; assumption].
-Qed.
-Lemma existsb_flat_map : forall A B (f : B -> bool) (g : A -> list B) l,
-  existsb f (flat_map g l) = existsb (fun a => existsb f (g a)) l.
-Proof. induction l as [|a t IH]; [reflexivity|]. cbn [flat_map existsb]. rewrite existsb_app, IH. reflexivity. Qed.
-Lemma existsb_andb_const : forall A (c : bool) (g : A -> bool) l,
-  existsb (fun a => c && g a) l = c && existsb g l.
-Proof.
-  induction l as [|a t IH]; cbn [existsb]; [destruct c; reflexivity|].
-  rewrite IH. destruct c; reflexivity.
-Qed.
-Lemma flat_map_map' : forall A B C (g : A -> B) (f : B -> list C) l, flat_map f (map g l) = flat_map (fun a => f (g a)) l.
-Proof. induction l as [|a t IH]; [reflexivity|]. cbn [map flat_map]. rewrite IH. reflexivity. Qed.
-Lemma flat_map_ext' : forall A B (f g : A -> list B) l, (forall a, f a = g a) -> flat_map f l = flat_map g l.
-Proof. induction l as [|a t IH]; intros H; [reflexivity|]. cbn [flat_map]. rewrite H, IH by assumption. reflexivity. Qed.
-Lemma filter_filter' : forall A (f g : A -> bool) l, filter f (filter g l) = filter (fun a => g a && f a) l.
-Proof.
-  induction l as [|a t IH]; [reflexivity|]. cbn [filter]. destruct (g a); cbn [filter andb]; rewrite IH; reflexivity.
-Qed.
-Lemma filter_ext_in' : forall A (f g : A -> bool) l, (forall a, In a l -> f a = g a) -> filter f l = filter g l.
-Proof.
-  induction l as [|a t IH]; intros H; [reflexivity|]. cbn [filter].
-  rewrite (H a (or_introl eq_refl)), IH; [reflexivity | intros; apply H; right; assumption].
-Qed.
-
 Lemma fold_delete_filter : forall L acc,
   fold_left (fun es e => delete_edge e es) L acc
   = filter (fun a => negb (existsb (fun e => same_key a e) L)) acc.
@@ -678,99 +653,182 @@ Proof.
   - apply found_edges_key, Ha.
 Qed.
 
+
+Lemma edges_spec : forall m d,
+  let es := edges_of (m_row m) d in
+  let rs := map (ref_read (m_row m) (m_date m) es) (m_refs m) in
+  fold_left (fun acc e => insert_edge e acc) (flat_map (fun t : list edge * list edge * bool => snd (fst t)) rs)
+    (fold_left (fun acc e => delete_edge e acc) (flat_map (fun t : list edge * list edge * bool => fst (fst t)) rs) (edges d))
+  = spec_new_rows_edges m es (edges d).
+Proof.
+  intros m d es rs. unfold spec_new_rows_edges, rs. rewrite !flat_map_map'.
+  rewrite (flat_map_ext' _ _ (fun op => snd (fst (ref_read (m_row m) (m_date m) es op)))
+                            (spec_new_edges (m_row m) (m_date m) es)) by (intros; apply ref_read_new).
+  f_equal. rewrite fold_delete_filter. apply filter_ext_in'. intros a Ha. f_equal.
+  rewrite existsb_flat_map.
+  rewrite (existsb_ext' _ _ (fun op => N.eqb (e_src a) (m_row m) &&
+             match op with
+             | RClear l' => N.eqb l' (e_label a)
+             | RSet l' dst => N.eqb l' (e_label a) && negb (edge_exists l' dst es)
+             | RAdd _ _ => false
+             end)) by (intros op _; apply ref_read_del_key, Ha).
+  rewrite existsb_andb_const. unfold label_removed. reflexivity.
+Qed.
+
 Definition apply1 (m : mutation) (d : db) : db :=
   match read d m with Some p => write p d | None => d end.
 
+Definition wfP (d : db) : Prop := NoDup (ids d) /\ NoDup (rowids d).
+Definition fresh_create (d : db) (m : mutation) : Prop :=
+  m_kind m = KCreate -> find_row (m_row m) d = None.
+
+Lemma find_row_none : forall x d, find_row x d = None <-> ~ In x (ids d).
+Proof.
+  intros x d. unfold find_row, ids. induction (rows d) as [|r t IH]; cbn [find map In]; [tauto|].
+  destruct (N.eqb (r_id r) x) eqn:E.
+  - apply N.eqb_eq in E. split; [discriminate | intros H; exfalso; apply H; left; assumption].
+  - apply N.eqb_neq in E. rewrite IH. tauto.
+Qed.
+
 (* unless the mutation is a room move that the code ignores (class 2), reading and writing with
    nothing in between is the abstract semantics of the mutation *)
-Lemma apply1_spec : forall m d, ignored_move d m = false -> apply1 m d = spec_apply m d.
+Lemma apply1_spec : forall m d, wfP d -> fresh_create d m -> ignored_move d m = false ->
+  apply1 m d = spec_apply m d.
 Proof.
-  intros m d Hig. unfold apply1, read, spec_apply, ignored_move in *.
-  destruct (find_row (m_row m) d) as [old|] eqn:F; [|reflexivity].
-  assert (Hid : r_id old = m_row m) by (unfold find_row in F; apply find_some in F; apply N.eqb_eq, F).
-  set (es := edges_of (m_row m) d) in *.
-  assert (Hupd : (negb (is_nil (m_assign m)) ||
-                  existsb (fun t : list edge * list edge * bool => snd t) (map (ref_read (m_row m) (m_date m) es) (m_refs m)))
-                 = (negb (is_nil (m_assign m)) || existsb (spec_ref_effective es) (m_refs m))).
-  { f_equal. rewrite existsb_map'. apply existsb_ext'. intros op _. apply ref_read_effective. }
-  unfold write, read_view; cbn [p_node p_del p_ins rows edges]. rewrite Hupd.
-  f_equal.
-  - destruct (negb (is_nil (m_assign m)) || existsb (spec_ref_effective es) (m_refs m)) eqn:U; cbn [orb].
-    + cbn [r_id]. rewrite Hid. reflexivity.
-    + cbn [negb] in Hig. rewrite Bool.andb_true_r in Hig. rewrite Hig. reflexivity.
-  - rewrite !flat_map_map'.
-    rewrite (flat_map_ext' _ _ (fun op => snd (fst (ref_read (m_row m) (m_date m) es op)))
-                              (spec_new_edges (m_row m) (m_date m) es)) by (intros; apply ref_read_new).
-    f_equal. rewrite fold_delete_filter. apply filter_ext_in'. intros a Ha. f_equal.
-    rewrite existsb_flat_map.
-    rewrite (existsb_ext' _ _ (fun op => N.eqb (e_src a) (m_row m) &&
-               match op with
-               | RClear l' => N.eqb l' (e_label a)
-               | RSet l' dst => N.eqb l' (e_label a) && negb (edge_exists l' dst es)
-               | RAdd _ _ => false
-               end)) by (intros op _; apply ref_read_del_key, Ha).
-    rewrite existsb_andb_const. unfold label_removed. reflexivity.
+  intros m d [Hids Hrids] Hfresh Hig. unfold apply1, read, spec_apply, ignored_move in *.
+  destruct (m_kind m) eqn:K.
+  - (* update *)
+    destruct (find_row (m_row m) d) as [old|] eqn:F; [|reflexivity].
+    unfold find_row in F. pose proof (find_some _ _ F) as [Hin Hid]. apply N.eqb_eq in Hid.
+    set (es := edges_of (m_row m) d) in *.
+    assert (Hupd : (negb (is_nil (m_assign m)) ||
+                    existsb (fun t : list edge * list edge * bool => snd t) (map (ref_read (m_row m) (m_date m) es) (m_refs m)))
+                   = (negb (is_nil (m_assign m)) || existsb (spec_ref_effective es) (m_refs m))).
+    { f_equal. rewrite existsb_map'. apply existsb_ext'. intros op _. apply ref_read_effective. }
+    unfold write, read_update; cbn [p_kind p_node p_del p_ins rows edges]. rewrite Hupd.
+    f_equal.
+    + destruct (negb (is_nil (m_assign m)) || existsb (spec_ref_effective es) (m_refs m)) eqn:U; cbn [orb].
+      * cbn [r_rowid]. apply map_ext_in. intros r Hr.
+        assert (E : N.eqb (r_rowid r) (r_rowid old) = N.eqb (r_id r) (m_row m)).
+        { apply Bool.eq_iff_eq_true. rewrite !N.eqb_eq. split; intros H.
+          - assert (r = old) by (eapply (unique_by r_rowid); eauto). subst r. assumption.
+          - assert (r = old) by (eapply (unique_by r_id); eauto; congruence). subst r. reflexivity. }
+        rewrite E. reflexivity.
+      * cbn [negb] in Hig. rewrite Bool.andb_true_r in Hig. rewrite Hig. reflexivity.
+    + apply (edges_spec m d).
+  - (* creation *)
+    rewrite (Hfresh K). unfold write, read_create; cbn [p_kind p_node p_del p_ins rows edges r_id r_room r_mdate r_fields].
+    f_equal. apply (edges_spec m d).
+  - (* deletion *)
+    destruct (find_row (m_row m) d); unfold write; cbn [p_kind p_row]; reflexivity.
 Qed.
 
 Lemma apply_apply1 : forall ms d i,
   apply ms d i = match nth_error ms i with Some m => apply1 m d | None => d end.
 Proof. reflexivity. Qed.
 
-Lemma fold_spec_apply : forall ms pi d, moves_ok ms d pi = true ->
+Lemma ids_map_same : forall (f : row -> row) l, (forall r, In r l -> r_id (f r) = r_id r) -> map r_id (map f l) = map r_id l.
+Proof. intros f l H. rewrite map_map. apply map_ext_in, H. Qed.
+
+Lemma wf_apply1 : forall m d, wfP d -> fresh_create d m -> wfP (apply1 m d).
+Proof.
+  intros m d [Hids Hrids] Hfresh. unfold apply1. destruct (read d m) as [p|] eqn:Rd; [|split; assumption].
+  split; [|apply rowids_write, Hrids].
+  unfold read in Rd. destruct (m_kind m) eqn:K.
+  - destruct (find_row (m_row m) d) as [old|] eqn:F; [|discriminate]. inversion Rd; subst p; clear Rd.
+    unfold write, ids; cbn [read_update p_kind p_node rows]. destruct (_ || _); [|exact Hids].
+    unfold find_row in F. pose proof (find_some _ _ F) as [Hin _].
+    rewrite ids_map_same; [exact Hids|]. intros r Hr. cbn [r_rowid].
+    destruct (N.eqb (r_rowid r) (r_rowid old)) eqn:E; [|reflexivity].
+    apply N.eqb_eq in E. assert (r = old) by (eapply (unique_by r_rowid); eauto). subst r. reflexivity.
+  - inversion Rd; subst p; clear Rd. unfold write, ids; cbn [read_create p_kind p_node rows r_id].
+    rewrite map_app. cbn [map r_id]. unfold ids in Hids. apply NoDup_rev in Hids.
+    rewrite <- (rev_involutive (map r_id (rows d) ++ [m_row m])). apply NoDup_rev.
+    rewrite rev_app_distr. cbn [rev app]. constructor; [|exact Hids].
+    rewrite <- in_rev. apply find_row_none, Hfresh, K.
+  - inversion Rd; subst p; clear Rd. unfold write, ids; cbn [p_kind p_row].
+    destruct (find_row (m_row m) d); [|exact Hids]. cbn [rows]. apply NoDup_map_filter, Hids.
+Qed.
+
+Lemma fold_spec_apply : forall ms pi d, wfP d ->
+  moves_ok ms d pi = true -> creates_fresh ms d pi = true ->
   fold_left (spec_apply_i ms) pi d = fold_left (apply ms) pi d.
 Proof.
-  induction pi as [|i t IH]; intros d H; [reflexivity|]. cbn [moves_ok] in H.
-  apply Bool.andb_true_iff in H. destruct H as [H1 H2]. cbn [fold_left].
-  assert (E : spec_apply_i ms d i = apply ms d i).
-  { unfold spec_apply_i. rewrite apply_apply1. destruct (nth_error ms i) as [m|]; [|reflexivity].
-    symmetry. apply apply1_spec. apply Bool.negb_true_iff, H1. }
-  rewrite E. apply IH, H2.
+  induction pi as [|i t IH]; intros d Hwf H Hc; [reflexivity|]. cbn [moves_ok creates_fresh] in H, Hc.
+  apply Bool.andb_true_iff in H. destruct H as [H1 H2].
+  apply Bool.andb_true_iff in Hc. destruct Hc as [C1 C2]. cbn [fold_left].
+  assert (E : spec_apply_i ms d i = apply ms d i /\ wfP (apply ms d i)).
+  { unfold spec_apply_i. rewrite apply_apply1. destruct (nth_error ms i) as [m|]; [|split; [reflexivity | assumption]].
+    assert (Hf : fresh_create d m).
+    { intros K. rewrite K in C1. destruct (find_row (m_row m) d); [discriminate | reflexivity]. }
+    split; [symmetry; apply apply1_spec; auto; apply Bool.negb_true_iff, H1 | apply wf_apply1; assumption]. }
+  destruct E as [E Hwf']. rewrite E. apply IH; assumption.
 Qed.
 Lemma moves_ok_app : forall ms a b d, moves_ok ms d (a ++ b) = true -> moves_ok ms d a = true.
 Proof.
   induction a as [|i t IH]; intros b d H; [reflexivity|]. cbn [app moves_ok] in *.
   apply Bool.andb_true_iff in H. destruct H as [H1 H2]. rewrite H1. cbn [andb]. eapply IH, H2.
 Qed.
+Lemma creates_fresh_app : forall ms a b d, creates_fresh ms d (a ++ b) = true -> creates_fresh ms d a = true.
+Proof.
+  induction a as [|i t IH]; intros b d H; [reflexivity|]. cbn [app creates_fresh] in *.
+  apply Bool.andb_true_iff in H. destruct H as [H1 H2]. rewrite H1. cbn [andb]. eapply IH, H2.
+Qed.
+
+Lemma nodupb_NoDup : forall l, nodupb l = true -> NoDup l.
+Proof.
+  induction l as [|x t IH]; intros H; [constructor|]. cbn [nodupb] in H.
+  apply Bool.andb_true_iff in H. destruct H as [H1 H2]. constructor; [|apply IH, H2].
+  intros Hin. apply Bool.negb_true_iff in H1. assert (existsb (N.eqb x) t = true); [|congruence].
+  apply existsb_exists. exists x. split; [assumption | apply N.eqb_refl].
+Qed.
+Lemma wf_db_wfP : forall d, wf_db d = true -> wfP d.
+Proof. intros d H. unfold wf_db in H. apply Bool.andb_true_iff in H. destruct H. split; apply nodupb_NoDup; assumption. Qed.
 
 (* --- reading the acknowledgement flags back --- *)
 Lemma combine_map_self : forall A B (g : A -> B) l, combine l (map g l) = map (fun a => (a, g a)) l.
 Proof. induction l as [|a t IH]; [reflexivity|]. cbn [map combine]. rewrite IH. reflexivity. Qed.
-Lemma flags_filter : forall (f : nat -> bool) l,
-  map fst (filter (fun p : nat * Z => Z.eqb (snd p) 1) (map (fun a => (a, zb (f a))) l)) = filter f l.
+Lemma flags_filter : forall (g : nat -> Z) l,
+  map fst (filter (fun p : nat * Z => Z.eqb (snd p) 1) (map (fun a => (a, g a)) l)) = filter (fun a => Z.eqb (g a) 1) l.
 Proof.
   induction l as [|i t IH]; [reflexivity|]. cbn [map filter snd].
-  destruct (f i); cbn [zb Z.eqb Pos.eqb map fst]; [rewrite IH; reflexivity | exact IH].
+  destruct (Z.eqb (g i) 1); cbn [map fst]; [rewrite IH; reflexivity | exact IH].
 Qed.
-Lemma acked_of_flags : forall (f : nat -> bool) n,
-  acked_of (map (fun i => zb (f i)) (seq 0 n)) = filter f (seq 0 n).
+Lemma acked_of_flags : forall s n,
+  acked_of (map (ack_code s) (seq 0 n)) = filter (fun i => memn i (s_acked s)) (seq 0 n).
 Proof.
-  intros f n. unfold acked_of. rewrite map_length, seq_length, combine_map_self. apply flags_filter.
+  intros s n. unfold acked_of. rewrite map_length, seq_length, combine_map_self, flags_filter.
+  apply filter_ext_in'. intros i _. unfold ack_code.
+  destruct (memn i (s_acked s)); [reflexivity|]. destruct (memn i (s_refused s)); reflexivity.
 Qed.
 
 (* outside the known classes: a schedule (complete or not) without overlapping windows on one
    row, in a case where no order ignores a room move, reaches the state that the acknowledged
    mutations give under the abstract semantics, applied in write order; stated on the functions
    the harness evaluates *)
-Theorem outside_known : forall d nf ms sigma b,
-  known_C16 (CSched d nf ms sigma b) = [] ->
-  run_sched d ms sigma <> None ->
-  spec_C16 (CSched d nf ms sigma b) (run_C16 (CSched d nf ms sigma b)) = true.
+Theorem outside_known : forall rt d nf ms sigma b,
+  known_C16 (CSched rt d nf ms sigma b) = [] ->
+  wf_case (CSched rt d nf ms sigma b) = true ->
+  run_sched rt d ms sigma <> None ->
+  spec_C16 (CSched rt d nf ms sigma b) (run_C16 (CSched rt d nf ms sigma b)) = true.
 Proof.
-  intros d nf ms sigma b Hk Hr.
+  intros rt d nf ms sigma b Hk Hwf Hr.
   cbn [known_C16] in Hk. apply app_eq_nil in Hk. destruct Hk as [Hk1 Hk2].
   destruct (windows_ok ms [] sigma) eqn:Hw; [|discriminate]. clear Hk1.
   destruct (forallb (moves_ok ms d) (perms (seq 0 (length ms)))) eqn:Hm; [|discriminate]. clear Hk2.
   rewrite forallb_forall in Hm.
-  destruct (run_sched d ms sigma) as [s|] eqn:Hrun; [|congruence]. clear Hr.
+  cbn [wf_case] in Hwf. apply Bool.andb_true_iff in Hwf. destruct Hwf as [Hwd Hcf].
+  apply wf_db_wfP in Hwd. rewrite forallb_forall in Hcf.
+  destruct (run_sched rt d ms sigma) as [s|] eqn:Hrun; [|congruence]. clear Hr.
   unfold spec_C16, run_C16.
-  rewrite split_join by (pose proof (join_length (run_chunks (CSched d nf ms sigma b))); lia).
+  rewrite split_join by (pose proof (join_length (run_chunks (CSched rt d nf ms sigma b))); lia).
   cbn [run_chunks]. rewrite Hrun. cbn [spec_chunks].
-  pose proof (serial_ok d ms sigma s Hrun Hw) as Hdb.
+  pose proof (serial_ok rt d ms sigma s (proj2 Hwd) Hrun Hw) as Hdb.
   unfold run_sched in Hrun.
-  pose proof (run_inv2 ms d sigma (init d) s (inv2_init ms d) Hrun) as I2.
-  destruct I2 as [_ _ Ina _ _ _ _ _ Iha _].
+  pose proof (run_inv2 rt ms d sigma (init d) s (inv2_init ms d) Hrun) as I2.
+  destruct I2 as [_ Ina _ _ Ilt _].
   set (n := length ms) in *.
-  set (flags := map (fun i => zb (memn i (s_acked s))) (seq 0 n)).
+  set (flags := map (ack_code s) (seq 0 n)).
   assert (Hlen : length flags = n) by (unfold flags; rewrite map_length, seq_length; reflexivity).
   unfold outcome. fold flags.
   assert (Hf : firstn n (flags ++ obs_db nf (s_db s)) = flags) by (rewrite <- Hlen; apply firstn_len_app).
@@ -778,8 +836,7 @@ Proof.
   rewrite Hf, Hs, Hlen, Nat.eqb_refl. cbn [andb].
   unfold flags. rewrite acked_of_flags.
   assert (Hlt : forall i, In i (s_acked s) -> (i < n)%nat).
-  { intros i Hi. specialize (Iha i Hi). unfold has_row in Iha.
-    apply nth_error_Some. destruct (nth_error ms i); [discriminate | discriminate]. }
+  { intros i Hi. apply nth_error_Some. apply Ilt. right. assumption. }
   assert (HP : Permutation (filter (fun i => memn i (s_acked s)) (seq 0 n)) (s_acked s)).
   { apply NoDup_Permutation; [apply NoDup_filter, seq_NoDup | assumption |].
     intros i. rewrite filter_In, in_seq, memn_In. split; [tauto|]. intros Hi. pose proof (Hlt i Hi). split; [lia | assumption]. }
@@ -793,19 +850,23 @@ Proof.
     - intros i. rewrite in_app_iff. unfold rest. rewrite filter_In, in_seq, Bool.negb_true_iff, memn_false. split.
       + intros Hi. destruct (memn i (s_acked s)) eqn:M; [left; apply memn_In, M | right; split; [lia | apply memn_false, M]].
       + intros [Hi|[Hi _]]; [specialize (Hlt i Hi); lia | lia]. }
-  assert (Hmo : moves_ok ms d (s_acked s) = true).
-  { eapply moves_ok_app. apply Hm. apply perms_complete, HPall. }
+  assert (Hall : In (s_acked s ++ rest) (perms (seq 0 n))) by (apply perms_complete, HPall).
+  assert (Hmo : moves_ok ms d (s_acked s) = true) by (eapply moves_ok_app, Hm, Hall).
+  assert (Hfo : creates_fresh ms d (s_acked s) = true) by (eapply creates_fresh_app, Hcf, Hall).
   apply existsb_exists. exists (s_acked s). split; [apply perms_complete, HP|].
-  rewrite (fold_spec_apply ms (s_acked s) d Hmo), <- Hdb. apply zlist_eqb_refl.
+  rewrite (fold_spec_apply ms (s_acked s) d Hwd Hmo Hfo), <- Hdb. apply zlist_eqb_refl.
 Qed.
 
 (* ------------------------------------------------------------------ refutation witnesses (closed terms) *)
+(* rooms of the harness: 1 = the caller may write for ever, 2 = right revoked from date 1500 *)
+Definition wit_rt : list (N * Z) := [(1%N, 1000000000); (2%N, 1500)].
 Definition wit_row : row :=
-  {| r_id := 1%N; r_room := Some 1%N; r_mdate := 0; r_fields := [(0%N, 1); (1%N, 2); (2%N, 90); (3%N, 12)] |}.
+  {| r_id := 1%N; r_rowid := 4%N; r_room := Some 1%N; r_mdate := 0;
+     r_fields := [(0%N, 1); (1%N, 2); (2%N, 90); (3%N, 12)] |}.
 Definition wit_db : db :=
-  {| rows := [wit_row]; edges := [mk_edge 1%N 0%N 0%N 0; mk_edge 1%N 1%N 0%N 0] |}.
+  {| rows := [wit_row]; edges := [mk_edge 1%N 0%N 0%N 0; mk_edge 1%N 1%N 0%N 0]; db_floor := 3%N |}.
 Definition mut (room : option N) (date : Z) (a : list (N * Z)) (r : list refop) : mutation :=
-  {| m_row := 1%N; m_date := date; m_room := room; m_assign := a; m_refs := r |}.
+  {| m_kind := KUpdate; m_row := 1%N; m_date := date; m_room := room; m_assign := a; m_refs := r |}.
 (* R1 R2 V1 W1 V2 W2 *)
 Definition wit_sigma : list ev := [R 0; R 1; V 0; W 0; V 1; W 1]%nat.
 
@@ -820,16 +881,17 @@ Ltac two_orders H :=
 (* m1 assigns field 0, m2 assigns field 1 of one row: both are acknowledged, the final row has
    m2's field 1 and the OLD field 0; no serial order gives that state *)
 Lemma refuted_fields :
-  let c := CSched wit_db 4%N wit_fields wit_sigma false in
-  known_C16 c = [1] /\ complete 2 wit_sigma = true /\
-  (exists s, run_sched wit_db wit_fields wit_sigma = Some s /\ s_acked s = [0; 1]%nat /\
+  let c := CSched wit_rt wit_db 4%N wit_fields wit_sigma false in
+  known_C16 c = [1] /\ wf_case c = true /\ complete 2 wit_sigma = true /\
+  (exists s, run_sched wit_rt wit_db wit_fields wit_sigma = Some s /\ s_acked s = [0; 1]%nat /\
      (exists r, find_row 1%N (s_db s) = Some r /\
                 get_field 0%N (r_fields r) = Some 1 /\ get_field 1%N (r_fields r) = Some 22) /\
      (forall pi, Permutation [0; 1]%nat pi ->
                  obs_db 4%N (fold_left (spec_apply_i wit_fields) pi wit_db) <> obs_db 4%N (s_db s))) /\
   spec_C16 c (run_C16 c) = false.
 Proof.
-  cbv zeta. split; [vm_compute; reflexivity|]. split; [vm_compute; reflexivity|]. split; [|vm_compute; reflexivity].
+  cbv zeta. split; [vm_compute; reflexivity|]. split; [vm_compute; reflexivity|]. split; [vm_compute; reflexivity|].
+  split; [|vm_compute; reflexivity].
   eexists. split; [vm_compute; reflexivity|]. split; [reflexivity|]. split.
   - eexists. split; [vm_compute; reflexivity|]. split; reflexivity.
   - intros pi HP. two_orders HP.
@@ -838,9 +900,9 @@ Qed.
 (* two replacements of a single-valued reference (owner:{id:t1} and owner:{id:t2}): both
    acknowledged, the row ends with TWO owners; every serial order leaves one *)
 Lemma refuted_reference :
-  let c := CSched wit_db 4%N wit_refs wit_sigma false in
-  known_C16 c = [1] /\ complete 2 wit_sigma = true /\
-  (exists s, run_sched wit_db wit_refs wit_sigma = Some s /\ s_acked s = [0; 1]%nat /\
+  let c := CSched wit_rt wit_db 4%N wit_refs wit_sigma false in
+  known_C16 c = [1] /\ wf_case c = true /\
+  (exists s, run_sched wit_rt wit_db wit_refs wit_sigma = Some s /\ s_acked s = [0; 1]%nat /\
      length (get_edges 1%N (edges_of 1%N (s_db s))) = 2%nat /\
      (forall pi, Permutation [0; 1]%nat pi ->
                  length (get_edges 1%N (edges_of 1%N (fold_left (spec_apply_i wit_refs) pi wit_db))) = 1%nat)) /\
@@ -854,9 +916,9 @@ Qed.
 (* a move to room 2 (with an assignment) racing a field update: both acknowledged, the row is
    still in room 1 and the moved mutation's assignment is gone *)
 Lemma refuted_room_move :
-  let c := CSched wit_db 4%N wit_room wit_sigma false in
-  known_C16 c = [1] /\ complete 2 wit_sigma = true /\
-  (exists s, run_sched wit_db wit_room wit_sigma = Some s /\ s_acked s = [0; 1]%nat /\
+  let c := CSched wit_rt wit_db 4%N wit_room wit_sigma false in
+  known_C16 c = [1] /\ wf_case c = true /\
+  (exists s, run_sched wit_rt wit_db wit_room wit_sigma = Some s /\ s_acked s = [0; 1]%nat /\
      (exists r, find_row 1%N (s_db s) = Some r /\ r_room r = Some 1%N /\ get_field 0%N (r_fields r) = Some 1) /\
      (forall pi, Permutation [0; 1]%nat pi ->
                  exists r, find_row 1%N (fold_left (spec_apply_i wit_room) pi wit_db) = Some r /\ r_room r = Some 2%N)) /\
@@ -869,58 +931,85 @@ Proof.
     destruct HP as [<-|[<-|[]]]; eexists; (split; [vm_compute; reflexivity | reflexivity]).
 Qed.
 
-(* the hypotheses of outside_known are satisfiable by a schedule that is not serial: windows of
-   mutations on different rows overlap, the two mutations of row 1 do not *)
+(* update of row 1 read; row 1 deleted; a NEW row 11 created (it takes over the rowid of the
+   deleted row); the update is written: all three acknowledged, the deleted row 1 is back and
+   the new row 11 is gone.  In every serial order row 1 is gone and row 11 is there. *)
+Definition wit_takeover : list mutation :=
+  [mut None 1000 [(0%N, 11)] [RAdd 0%N [1%N]];
+   {| m_kind := KDelete; m_row := 1%N; m_date := 2000; m_room := None; m_assign := []; m_refs := [] |};
+   {| m_kind := KCreate; m_row := 11%N; m_date := 3000; m_room := Some 1%N;
+      m_assign := [(0%N, 5); (1%N, 70); (2%N, 90); (3%N, 30)]; m_refs := [RSet 1%N 2%N] |}].
+Definition takeover_sigma : list ev := [R 0; R 1; V 1; W 1; R 2; V 2; W 2; V 0; W 0]%nat.
+Lemma refuted_rowid_takeover :
+  let c := CSched wit_rt wit_db 4%N wit_takeover takeover_sigma false in
+  known_C16 c = [1] /\ wf_case c = true /\
+  (exists s, run_sched wit_rt wit_db wit_takeover takeover_sigma = Some s /\ s_acked s = [1; 2; 0]%nat /\
+     find_row 1%N (s_db s) <> None /\ find_row 11%N (s_db s) = None /\
+     (forall pi, Permutation [0; 1; 2]%nat pi ->
+                 find_row 1%N (fold_left (spec_apply_i wit_takeover) pi wit_db) = None /\
+                 find_row 11%N (fold_left (spec_apply_i wit_takeover) pi wit_db) <> None)) /\
+  spec_C16 c (run_C16 c) = false.
+Proof.
+  cbv zeta. split; [vm_compute; reflexivity|]. split; [vm_compute; reflexivity|]. split; [|vm_compute; reflexivity].
+  eexists. split; [vm_compute; reflexivity|]. split; [reflexivity|].
+  split; [vm_compute; discriminate|]. split; [vm_compute; reflexivity|].
+  intros pi HP. apply perms_complete in HP. cbn in HP.
+  repeat (destruct HP as [<-|HP]; [split; [vm_compute; reflexivity | vm_compute; discriminate]|]). destruct HP.
+Qed.
+
+(* the hypotheses of outside_known are satisfiable by a schedule that is not serial and that
+   contains a refused mutation, a creation and a deletion: windows of mutations on different rows
+   overlap, the mutations of one row do not *)
 Definition nv_db : db :=
-  {| rows := [wit_row; {| r_id := 2%N; r_room := None; r_mdate := 0; r_fields := [(2%N, 6)] |}];
-     edges := [mk_edge 1%N 1%N 0%N 0] |}.
+  {| rows := [wit_row; {| r_id := 2%N; r_rowid := 5%N; r_room := None; r_mdate := 0; r_fields := [(2%N, 6)] |}];
+     edges := [mk_edge 1%N 1%N 0%N 0]; db_floor := 3%N |}.
 Definition nv_ms : list mutation :=
   [mut None 1000 [(0%N, 11)] [RSet 1%N 2%N];
-   {| m_row := 2%N; m_date := 2000; m_room := None; m_assign := [(0%N, 22)]; m_refs := [RAdd 0%N [1%N]] |};
-   mut (Some 2%N) 3000 [(1%N, 33)] [RClear 1%N]].
-Definition nv_sigma : list ev := [R 0; R 1; V 1; V 0; W 1; W 0; R 2; V 2; W 2]%nat.
+   {| m_kind := KDelete; m_row := 2%N; m_date := 2000; m_room := None; m_assign := []; m_refs := [] |};
+   mut (Some 3%N) 3000 [(1%N, 33)] [RClear 1%N];
+   {| m_kind := KCreate; m_row := 11%N; m_date := 4000; m_room := Some 1%N; m_assign := [(0%N, 5)]; m_refs := [RAdd 0%N [1%N]] |}].
+Definition nv_sigma : list ev := [R 0; R 1; V 1; R 3; V 0; W 1; W 0; R 2; V 3; V 2; W 3; W 2]%nat.
 Lemma nonvacuous :
-  let c := CSched nv_db 3%N nv_ms nv_sigma false in
-  known_C16 c = [] /\ run_sched nv_db nv_ms nv_sigma <> None /\
+  let c := CSched wit_rt nv_db 4%N nv_ms nv_sigma false in
+  known_C16 c = [] /\ wf_case c = true /\
+  (exists s, run_sched wit_rt nv_db nv_ms nv_sigma = Some s /\ s_acked s = [1; 0; 3]%nat /\ s_refused s = [2]%nat) /\
   windows_ok nv_ms [] [R 0; R 2; V 0; W 0; V 2; W 2]%nat = false.
 Proof.
-  cbv zeta. split; [vm_compute; reflexivity|].
-  split; [vm_compute; discriminate | vm_compute; reflexivity].
+  cbv zeta. split; [vm_compute; reflexivity|]. split; [vm_compute; reflexivity|].
+  split; [eexists; split; [vm_compute; reflexivity | split; reflexivity] | vm_compute; reflexivity].
 Qed.
 
 (* ------------------------------------------------------------------ the statement at full strength, and its refutation *)
 Definition full_statement : Prop :=
-  forall d ms sigma s,
-    run_sched d ms sigma = Some s -> complete (length ms) sigma = true ->
+  forall rt d ms sigma s,
+    wf_db d = true -> run_sched rt d ms sigma = Some s -> complete (length ms) sigma = true ->
     exists pi, Permutation (s_acked s) pi /\ s_db s = fold_left (spec_apply_i ms) pi d.
 
 Lemma full_refuted : ~ full_statement.
 Proof.
-  intros H. destruct refuted_fields as [_ [Hc [[s [Hr [Ha [_ Hno]]]] _]]].
-  destruct (H wit_db wit_fields wit_sigma s Hr Hc) as [pi [HP Hdb]].
+  intros H. destruct refuted_fields as [_ [_ [Hc [[s [Hr [Ha [_ Hno]]]] _]]]].
+  destruct (H wit_rt wit_db wit_fields wit_sigma s eq_refl Hr Hc) as [pi [HP Hdb]].
   rewrite Ha in HP. apply (Hno pi HP). rewrite Hdb. reflexivity.
 Qed.
 
 Lemma other_rows_frame : forall d m mo p,
-  read d mo = Some p -> m_row mo <> m_row m -> read (write p d) m = read d m.
-Proof.
-  intros d m mo p Hr Hne. destruct (read_wf d mo p Hr) as [Hwf Hrow].
-  apply read_write_frame; [assumption | congruence].
-Qed.
+  NoDup (rowids d) -> read d mo = Some p -> m_row mo <> m_row m -> read (write p d) m = read d m.
+Proof. intros d m mo p Hn Hr Hne. eapply read_write_frame; eauto. Qed.
 
 (* class 2, closed witness: a strictly sequential schedule; the first mutation only names room 2 *)
 Definition wit_room_only : list mutation := [mut (Some 2%N) 1000 [] []; mut None 2000 [(1%N, 22)] []].
 Definition seq_sigma : list ev := [R 0; V 0; W 0; R 1; V 1; W 1]%nat.
 Lemma refuted_room_only :
-  let c := CSched wit_db 4%N wit_room_only seq_sigma false in
-  known_C16 c = [2] /\ windows_ok wit_room_only [] seq_sigma = true /\
-  (exists s, run_sched wit_db wit_room_only seq_sigma = Some s /\ s_acked s = [0; 1]%nat /\
+  let c := CSched wit_rt wit_db 4%N wit_room_only seq_sigma false in
+  known_C16 c = [2] /\ wf_case c = true /\ windows_ok wit_room_only [] seq_sigma = true /\
+  (exists s, run_sched wit_rt wit_db wit_room_only seq_sigma = Some s /\ s_acked s = [0; 1]%nat /\
      (exists r, find_row 1%N (s_db s) = Some r /\ r_room r = Some 1%N) /\
      (forall pi, Permutation [0; 1]%nat pi ->
                  exists r, find_row 1%N (fold_left (spec_apply_i wit_room_only) pi wit_db) = Some r /\ r_room r = Some 2%N)) /\
   spec_C16 c (run_C16 c) = false.
 Proof.
-  cbv zeta. split; [vm_compute; reflexivity|]. split; [vm_compute; reflexivity|]. split; [|vm_compute; reflexivity].
+  cbv zeta. split; [vm_compute; reflexivity|]. split; [vm_compute; reflexivity|]. split; [vm_compute; reflexivity|].
+  split; [|vm_compute; reflexivity].
   eexists. split; [vm_compute; reflexivity|]. split; [reflexivity|]. split.
   - eexists. split; [vm_compute; reflexivity|]. reflexivity.
   - intros pi HP. apply perms_complete in HP. cbn in HP.
@@ -928,9 +1017,12 @@ Proof.
 Qed.
 
 (* the serial theorem, against the abstract semantics *)
-Lemma serial_spec : forall d ms sigma s,
-  run_sched d ms sigma = Some s -> windows_ok ms [] sigma = true -> moves_ok ms d (s_acked s) = true ->
+Lemma serial_spec : forall rt d ms sigma s,
+  wf_db d = true ->
+  run_sched rt d ms sigma = Some s -> windows_ok ms [] sigma = true ->
+  moves_ok ms d (s_acked s) = true -> creates_fresh ms d (s_acked s) = true ->
   s_db s = fold_left (spec_apply_i ms) (s_acked s) d.
 Proof.
-  intros d ms sigma s Hr Hw Hm. rewrite (fold_spec_apply ms (s_acked s) d Hm). eapply serial_ok; eauto.
+  intros rt d ms sigma s Hwf Hr Hw Hm Hc. apply wf_db_wfP in Hwf.
+  rewrite (fold_spec_apply ms (s_acked s) d Hwf Hm Hc). eapply serial_ok; eauto. apply Hwf.
 Qed.
